@@ -262,7 +262,10 @@ func (c09) Run(c *Case, st *Stats) []Violation {
 	switch c.Family {
 	case "ind":
 		e := indByName[c.Entity]
-		shared := makeIndV(e, c.Cfg, c.Scale, c.Variant)
+		// (the shared instance is made inside the simulation, like everything else the calls touch: a
+		// channel or timer that a constructor creates would otherwise lie outside the bubble, and a
+		// task blocked on it would not count as blocked)
+		var shared *IndInstance
 		res := make([]*PipeResult[F], len(c.Calls))
 		inputs := make([][][]F, len(c.Calls))
 		for k, cs := range c.Calls {
@@ -284,6 +287,7 @@ func (c09) Run(c *Case, st *Stats) []Violation {
 			return f
 		}
 		simOut = simulate(opts, func(s *simrt.Sim) {
+			shared = makeIndV(e, c.Cfg, c.Scale, c.Variant)
 			var ls *lockstep[F]
 			if c.Lock && !sequential {
 				// (the channel is made inside the simulation: blocking on one made outside would not count as blocked)
@@ -309,7 +313,7 @@ func (c09) Run(c *Case, st *Stats) []Violation {
 		for k := range c.Calls {
 			if ok, kind, detail := termination(simOut, res[k].Closed, res[k].ProdDone, res[k].Built); !ok {
 				// a run that does not terminate with a fresh instance either is C03's business
-				fresh := runPipe(PipeOpts{SimOpts: SimOpts{Policy: simrt.PolicySpec{Name: "fifo"}}}, inputs[k], freshInd(k).Build())
+				fresh := runPipe(PipeOpts{SimOpts: SimOpts{Policy: simrt.PolicySpec{Name: "fifo"}}}, inputs[k], func(in []<-chan F) []<-chan F { return freshInd(k).Build()(in) })
 				st.noteSim(&fresh.SimOut)
 				if okf, _, _ := termination(&fresh.SimOut, fresh.Closed, fresh.ProdDone, fresh.Built); okf {
 					add(kind+"-on-shared-instance", fmt.Sprintf("call %d: %s (a fresh instance terminates)", k, detail))
@@ -320,7 +324,7 @@ func (c09) Run(c *Case, st *Stats) []Violation {
 			}
 		}
 		for k := range c.Calls {
-			fresh := runPipe(PipeOpts{SimOpts: SimOpts{Policy: simrt.PolicySpec{Name: "fifo"}}}, inputs[k], freshInd(k).Build())
+			fresh := runPipe(PipeOpts{SimOpts: SimOpts{Policy: simrt.PolicySpec{Name: "fifo"}}}, inputs[k], func(in []<-chan F) []<-chan F { return freshInd(k).Build()(in) })
 			st.noteSim(&fresh.SimOut)
 			if okf, _, _ := termination(&fresh.SimOut, fresh.Closed, fresh.ProdDone, fresh.Built); !okf {
 				continue
@@ -332,7 +336,7 @@ func (c09) Run(c *Case, st *Stats) []Violation {
 			st.Probes["calls-compared-with-fresh-instance"]++
 		}
 	case "strat":
-		shared := buildStrategyV(c.spec(), c.Variant)
+		var shared strategy.Strategy // made inside the simulation (see above)
 		res := make([]*PipeResult[strategy.Action], len(c.Calls))
 		html := make([]*bytes.Buffer, len(c.Calls))
 		rendered := make([]bool, len(c.Calls))
@@ -369,6 +373,7 @@ func (c09) Run(c *Case, st *Stats) []Violation {
 			})
 		}
 		simOut = simulate(opts, func(s *simrt.Sim) {
+			shared = buildStrategyV(c.spec(), c.Variant)
 			var ls *lockstep[strategy.Action]
 			if c.Lock && !sequential {
 				n := 0
